@@ -4,8 +4,12 @@ package c12
 
 import (
 	"context"
+	"encoding/json"
 	"fmt"
+	"io"
 	"os"
+	"path/filepath"
+	"regexp"
 	"strings"
 	"sync"
 	"sync/atomic"
@@ -149,7 +153,10 @@ func (sc s2Scenario) extShape() string {
 type dsnRec struct {
 	ID           string   `json:"id"`
 	Rcpts        []string `json:"rcpts"`
+	Orig         string   `json:"orig,omitempty"`          // X-Maddy-MsgID of the report: the message it reports on
+	FailedRcpts  []string `json:"failed_rcpts,omitempty"`  // Final-Recipient fields: the recipients whose failure it reports
 	StartErr     string   `json:"start_err,omitempty"`
+	RcptErr      string   `json:"rcpt_err,omitempty"`
 	BodyErr      string   `json:"body_err,omitempty"`
 	CommitErr    string   `json:"commit_err,omitempty"`
 	Aborted      bool     `json:"aborted,omitempty"`
@@ -216,19 +223,50 @@ type tapDelivery struct {
 
 func (d *tapDelivery) AddRcpt(ctx context.Context, rcptTo string, opts smtp.RcptOptions) error {
 	err := d.d.AddRcpt(ctx, rcptTo, opts)
+	d.t.mu.Lock()
 	if err == nil {
-		d.t.mu.Lock()
 		d.rec.Rcpts = append(d.rec.Rcpts, rcptTo)
-		d.t.mu.Unlock()
+	} else {
+		d.rec.RcptErr = err.Error()
 	}
+	d.t.mu.Unlock()
 	return err
 }
 
+var (
+	reDSNOrig = regexp.MustCompile(`(?mi)^X-Maddy-MsgID:[ \t]*(\S+)`)
+	reDSNRcpt = regexp.MustCompile(`(?mi)^Final-Recipient:[ \t]*[^;\r\n]*;[ \t]*(\S+)`)
+)
+
+// reportSubject reads, from the delivery-status part of a report, which
+// message and which of its recipients the report is about (only to link the
+// report to the enqueued message; its content is C18's business).
+func reportSubject(body buffer.Buffer) (orig string, failed []string) {
+	rd, err := body.Open()
+	if err != nil {
+		return "", nil
+	}
+	defer rd.Close()
+	b, err := io.ReadAll(io.LimitReader(rd, 1<<20))
+	if err != nil {
+		return "", nil
+	}
+	if m := reDSNOrig.FindSubmatch(b); m != nil {
+		orig = string(m[1])
+	}
+	for _, m := range reDSNRcpt.FindAllSubmatch(b, -1) {
+		failed = append(failed, string(m[1]))
+	}
+	return orig, failed
+}
+
 func (d *tapDelivery) Body(ctx context.Context, header textproto.Header, body buffer.Buffer) error {
+	orig, failed := reportSubject(body)
 	n0 := verifkit.YieldCount()
 	err := d.d.Body(ctx, header, body)
 	n1 := verifkit.YieldCount()
 	d.t.mu.Lock()
+	d.rec.Orig, d.rec.FailedRcpts = orig, failed
 	d.t.yieldsInside += n1 - n0
 	if err != nil {
 		d.rec.BodyErr = err.Error()
@@ -271,6 +309,7 @@ func (t *dsnTap) snapshot() []dsnRec {
 	for _, r := range t.recs {
 		c := *r
 		c.Rcpts = append([]string(nil), r.Rcpts...)
+		c.FailedRcpts = append([]string(nil), r.FailedRcpts...)
 		out = append(out, c)
 	}
 	return out
@@ -429,4 +468,123 @@ func bouncePipelineText(form int, inst string) string {
 		return "deliver_to &" + inst + "\n"
 	}
 	return "destination nowhere.invalid {\n    reject 550 5.0.0 \"not here\"\n}\ndefault_destination {\n    deliver_to &" + inst + "\n}\n"
+}
+
+// ---- a permanent failure is an outcome only through its report -------------------
+
+// lostOutcome is a recipient that failed permanently and whose failure is
+// recorded nowhere after the shutdown.
+type lostOutcome struct {
+	Msg, Rcpt, Cause, What string
+	MetaTo                 []string
+}
+
+// judgeReported applies "never removes a spooled message without a terminal
+// outcome" to recipients that failed permanently in a queue whose bounce
+// pipeline delivers into a queue under test (the same or a second one). The
+// permanent failure is an outcome somebody learns about only through the
+// failure report, so it counts as the terminal outcome of the recipient when
+// the report was accepted by the bounce destination (Commit returned nil: the
+// report is then a committed message of that queue and judged as such by the
+// spool oracle); otherwise the message has to be still in the spool with the
+// recipient among those to be tried. On the unchanged tree a queue never
+// refuses an enqueue (Start/AddRcpt/Commit cannot fail, Body only on I/O
+// errors), stopped or not: the report is spooled and the restart delivers it.
+// A refusal by a scripted bounce target (layout script) is the environment's
+// doing and not judged.
+func judgeReported(sc s2Scenario, outs map[string]s2Outcome, view map[string]*msgView, recs []dsnRec, primary *spoolSite) (judged, viaReport, unlinked int, lost []lostOutcome) {
+	refusedUnlinked := false
+	for _, rec := range recs {
+		if rec.Orig == "" && (rec.Committed || rec.CommitErr != "" || rec.BodyErr != "") {
+			unlinked++ // the destination's Body was reached but the report does not say what it is about
+		}
+		if rec.Orig == "" && (rec.StartErr != "" || rec.RcptErr != "") {
+			refusedUnlinked = true
+		}
+	}
+	if unlinked > 0 {
+		return 0, 0, unlinked, nil
+	}
+	for _, ms := range sc.Enqueuers {
+		for _, m := range ms {
+			v := view[m.ID]
+			if !outs[m.ID].Committed || m.NullSender || v == nil {
+				continue
+			}
+			var metaTo []string
+			metaRead := false
+			for _, rc := range m.Rcpts {
+				st := v.Rcpt[rc]
+				if st != nil && st.Delivered > 0 {
+					continue
+				}
+				if !(v.AllPerm || (st != nil && st.PermFail)) {
+					continue
+				}
+				judged++
+				var refused *dsnRec
+				accepted := false
+				for i := range recs {
+					rec := &recs[i]
+					if rec.Orig != m.ID || !contains(rec.FailedRcpts, rc) {
+						continue
+					}
+					if rec.Committed {
+						accepted = true
+					} else {
+						refused = rec
+					}
+				}
+				if accepted {
+					viaReport++
+					continue
+				}
+				if !metaRead {
+					metaRead = true
+					if primary.Files[m.ID+".meta"] && primary.Files[m.ID+".header"] && primary.Files[m.ID+".body"] {
+						metaTo = metaToOf(primary.Dir, m.ID)
+					}
+				}
+				if contains(metaTo, rc) {
+					continue // still spooled, the restart retries it
+				}
+				l := lostOutcome{Msg: m.ID, Rcpt: rc, MetaTo: metaTo}
+				switch {
+				case refused != nil:
+					l.Cause = "report-refused-by-queue"
+					l.What = fmt.Sprintf("the report about it (%s) was handed to the bounce pipeline, which delivers into a queue, and that queue refused it (start %q, rcpt %q, body %q, commit %q)", refused.ID, refused.StartErr, refused.RcptErr, refused.BodyErr, refused.CommitErr)
+				case refusedUnlinked:
+					l.Cause = "report-refused-by-queue"
+					l.What = "a report was refused by the queue the bounce pipeline delivers into before its content was handed over"
+				default:
+					l.Cause = "no-report"
+					l.What = "no report about it was handed to the bounce pipeline"
+				}
+				lost = append(lost, l)
+			}
+		}
+	}
+	return judged, viaReport, 0, lost
+}
+
+func contains(l []string, s string) bool {
+	for _, x := range l {
+		if x == s {
+			return true
+		}
+	}
+	return false
+}
+
+// metaToOf reads the recipients still to be tried from a spooled message's meta-data.
+func metaToOf(dir, id string) []string {
+	b, err := os.ReadFile(filepath.Join(dir, id+".meta"))
+	if err != nil {
+		return nil
+	}
+	var meta struct{ To []string }
+	if json.Unmarshal(b, &meta) != nil {
+		return nil
+	}
+	return meta.To
 }
